@@ -2,7 +2,7 @@
     The theorems are about the wrappers over an *assumed* finite-map file system ([w_fs]) and input line list
     ([w_stdin]); the operating system itself is tied by the fs / stdin correspondence streams only. *)
 From Pakhi Require Import Base Float64 Syntax Tables Lexer Interp.
-From Pakhi.Proofs Require Import FsOps.
+From Pakhi.Proofs Require Import FsOps FsHistory.
 Local Open Scope nat_scope.
 
 Theorem C20_write_then_read : forall code m p c v m',
@@ -44,3 +44,43 @@ Theorem C20_file_ops_never_panic : forall code m op args, 10 <= op <= 16 ->
   match builtin_op code op args m with Panic _ => False | OutOfFuel => False | _ => True end.
 Proof. exact fs_ops_never_panic. Qed.
 Print Assumptions C20_file_ops_never_panic.
+
+(* histories.  Every file built-in changes the file system only inside its footprint -- the written or deleted path; the
+   created directory and its ancestors; the removed directory and everything under it -- and never the working
+   directory, the pending input, the output or the scopes *)
+Theorem C20_every_operation_changes_only_its_footprint : forall code op args m v m', 10 <= op <= 16 ->
+  builtin_op code op args m = Ok (v, m') ->
+  (forall q, ~ footprint (w_cwd (m_world m)) op args q -> fs_get (m_world m') q = fs_get (m_world m) q) /\
+  w_cwd (m_world m') = w_cwd (m_world m) /\ w_stdin (m_world m') = w_stdin (m_world m) /\
+  m_out m' = m_out m /\ m_scopes m' = m_scopes m /\ m_pc m' = m_pc m.
+Proof. exact fs_op_frame. Qed.
+Print Assumptions C20_every_operation_changes_only_its_footprint.
+
+(* so after ANY sequence of successful file operations that does not touch a path, a file written there before still
+   reads back exactly, and a file deleted there before is still missing *)
+Theorem C20_write_any_history_read : forall code m p c v m1 ops m2,
+  builtin_op code 11 [VStr p; VStr c] m = Ok (v, m1) ->
+  Forall (fun oa => 10 <= fst oa <= 16) ops -> fs_run code ops m1 = Some m2 ->
+  Forall (fun oa => ~ footprint (w_cwd (m_world m)) (fst oa) (snd oa) (fs_norm (m_world m) p)) ops ->
+  builtin_op code 10 [VStr p] m2 = Ok (VStr c, m2).
+Proof. exact write_history_read. Qed.
+Print Assumptions C20_write_any_history_read.
+
+Theorem C20_delete_any_history_read : forall code m p v m1 ops m2,
+  builtin_op code 12 [VStr p] m = Ok (v, m1) ->
+  Forall (fun oa => 10 <= fst oa <= 16) ops -> fs_run code ops m1 = Some m2 ->
+  Forall (fun oa => ~ footprint (w_cwd (m_world m)) (fst oa) (snd oa) (fs_norm (m_world m) p)) ops ->
+  builtin_op code 10 [VStr p] m2 = fail_here code ERuntime m2.
+Proof. exact delete_history_read. Qed.
+Print Assumptions C20_delete_any_history_read.
+
+(* the footprints are what one expects: removing directory d touches d/g and not f; creating d/e touches d and d/e *)
+Example C20_footprints :
+  let d := [100%N] in let f := [102%N] in let dg := [100; 47; 103]%N in let de := [100; 47; 101]%N in
+  footprint [] 15 [VStr d] dg /\ ~ footprint [] 15 [VStr d] f /\
+  footprint [] 13 [VStr de] d /\ footprint [] 13 [VStr de] de /\ ~ footprint [] 13 [VStr de] f /\
+  ~ footprint [] 11 [VStr [103%N]; VStr []] f /\ ~ footprint [] 14 [VStr f] f.
+Proof.
+  unfold footprint; cbn. repeat split; try (right; reflexivity); try (left; reflexivity); try (right; left; reflexivity);
+    try (intros [H|H]; discriminate); try (intros [H|[H|H]]; try discriminate; exact H); try (intros H; discriminate); try (intros H; exact H).
+Qed.
